@@ -1,1 +1,171 @@
-"""operation handlers (registered on import)"""
+"""Critical-path operations (C09, C19, overlay part of C20)."""
+from __future__ import annotations
+
+import copy
+import os
+from typing import Any, Dict, List
+
+from . import simenv
+from .canon import canon_value
+from .ops_analysis import canon_result
+from .ops_files import read_any
+from .session import State, _abs, _rel, op
+
+
+def observe_graph(cp: Any, with_nodes: bool = True) -> Dict[str, Any]:
+    edges = []
+    for u, v in cp.edges:
+        d = cp.edges[u, v]
+        e = d.get("object")
+        edges.append([int(u), int(v), canon_value(d.get("weight")),
+                      None if e is None else [int(e.begin), int(e.end), canon_value(e.weight), str(e.type.value)]])
+    edges.sort(key=lambda x: (x[0], x[1]))
+    obs: Dict[str, Any] = {
+        "n_nodes": cp.number_of_nodes(),
+        "nodes_set": sorted(int(n) for n in cp.nodes),
+        "edges": edges,
+        "critical_path_nodes": [int(n) for n in getattr(cp, "critical_path_nodes", [])],
+        "critical_path_events_set": sorted(int(x) for x in getattr(cp, "critical_path_events_set", set())),
+        "critical_path_edges_set": sorted([int(e.begin), int(e.end), canon_value(e.weight), str(e.type.value)]
+                                          for e in getattr(cp, "critical_path_edges_set", set())),
+        "edge_to_event_map": sorted([int(k[0]), int(k[1]), int(v)] for k, v in getattr(cp, "edge_to_event_map", {}).items()),
+        "event_to_start_node_map": sorted([int(k), int(v)] for k, v in getattr(cp, "event_to_start_node_map", {}).items()),
+        "event_to_end_node_map": sorted([int(k), int(v)] for k, v in getattr(cp, "event_to_end_node_map", {}).items()),
+    }
+    if with_nodes:
+        obs["node_list"] = [[int(n.idx), int(n.ev_idx), canon_value(n.ts), bool(n.is_start), bool(n.is_blocking)]
+                            for n in getattr(cp, "node_list", [])]
+    return obs
+
+
+def _instance(v: Any) -> Any:
+    if isinstance(v, list):
+        return (int(v[0]), int(v[1]))
+    return v
+
+
+@op("cp_analyze")
+def op_cp_analyze(state: State, a: Dict[str, Any], env: simenv.SimEnv) -> Any:
+    try:
+        res = state.ta.critical_path_analysis(rank=int(a["rank"]), annotation=a.get("annotation", "ProfilerStep"),
+                                              instance_id=_instance(a.get("instance", 0)))
+    except Exception:
+        state.graphs.append(None)  # keep graph numbering stable for the rest of the history
+        raise
+    if res is None:
+        state.graphs.append(None)
+        return {"none": True}
+    cp, ok = res
+    state.graphs.append(cp)
+    obs = observe_graph(cp)
+    obs["success"] = bool(ok)
+    obs["graph"] = len(state.graphs) - 1
+    return obs
+
+
+@op("cp_recompute")
+def op_cp_recompute(state: State, a: Dict[str, Any], env: simenv.SimEnv) -> Any:
+    cp = state.graphs[int(a["graph"])]
+    if cp is None:
+        return {"skipped": True}
+    ok = cp.critical_path()
+    obs = observe_graph(cp, with_nodes=False)
+    obs["success"] = bool(ok)
+    return obs
+
+
+@op("cp_reweight")
+def op_cp_reweight(state: State, a: Dict[str, Any], env: simenv.SimEnv) -> Any:
+    """The documented what-if workflow: edit edge weights of the networkx graph."""
+    cp = state.graphs[int(a["graph"])]
+    if cp is None:
+        return {"skipped": True, "changed": []}
+    order = sorted((int(u), int(v)) for u, v in cp.edges)
+    changed = []
+    for ed in a["edits"]:
+        if not order:
+            break
+        u, v = order[int(ed["pick"]) % len(order)]
+        old = cp.edges[u, v]["weight"]
+        if "set" in ed:
+            new = int(ed["set"])
+        else:
+            new = int(int(old) * ed["num"] // ed["den"])
+        cp.edges[u, v]["weight"] = new
+        changed.append([u, v, canon_value(old), new])
+    return {"changed": changed}
+
+
+@op("cp_deepcopy")
+def op_cp_deepcopy(state: State, a: Dict[str, Any], env: simenv.SimEnv) -> Any:
+    cp = state.graphs[int(a["graph"])]
+    try:
+        state.graphs.append(copy.deepcopy(cp))
+    except Exception:
+        state.graphs.append(None)
+        raise
+    return {"graph": len(state.graphs) - 1}
+
+
+@op("cp_breakdown")
+def op_cp_breakdown(state: State, a: Dict[str, Any], env: simenv.SimEnv) -> Any:
+    cp = state.graphs[int(a["graph"])]
+    if cp is None:
+        return {"skipped": True}
+    sym = list(state.trace.symbol_table.get_sym_table())
+    bd = cp.get_critical_path_breakdown()
+    out: Dict[str, Any] = {"breakdown": None, "summary": None}
+    if bd is not None:
+        keep = [c for c in ("event_idx", "duration", "type", "s_name", "cat", "pid", "tid", "stream", "bound_by")
+                if c in bd.columns]
+        out["breakdown"] = canon_result(bd[keep].reset_index(drop=True), sym)
+        out["n_rows"] = int(len(bd))
+        if a.get("summary", True):
+            out["summary"] = canon_result(cp.summary(), sym)
+    return out
+
+
+@op("cp_save")
+def op_cp_save(state: State, a: Dict[str, Any], env: simenv.SimEnv) -> Any:
+    cp = state.graphs[int(a["graph"])]
+    if cp is None:
+        return {"skipped": True}
+    out_dir = a["out_dir"]
+    if a.get("abs", True):
+        out_dir = _abs(state, out_dir)
+    z = cp.save(out_dir)
+    return {"zip": _rel(state, os.path.abspath(z)), "returned": _rel(state, z) if os.path.isabs(z) else z}
+
+
+@op("cp_restore")
+def op_cp_restore(state: State, a: Dict[str, Any], env: simenv.SimEnv) -> Any:
+    from hta.analyzers.critical_path_analysis import restore_cpgraph
+    z = a["zip"]
+    if a.get("abs", True):
+        z = _abs(state, z)
+    try:
+        cp = restore_cpgraph(z, state.trace, int(a["rank"]))
+    except BaseException:
+        state.graphs.append(None)
+        raise
+    state.graphs.append(cp)
+    obs = observe_graph(cp)
+    obs["graph"] = len(state.graphs) - 1
+    return obs
+
+
+@op("cp_overlay")
+def op_cp_overlay(state: State, a: Dict[str, Any], env: simenv.SimEnv) -> Any:
+    cp = state.graphs[int(a["graph"])]
+    if cp is None:
+        return {"skipped": True}
+    out_dir = _abs(state, a.get("out_dir", "overlay"))
+    path = state.ta.overlay_critical_path_analysis(
+        int(a["rank"]), cp, out_dir, only_show_critical_events=bool(a.get("only_critical", True)),
+        show_all_edges=bool(a.get("all_edges", False)))
+    out: Dict[str, Any] = {"path": _rel(state, path) if path else path}
+    if path:
+        out["file"] = read_any(env, path)
+        out["graph_obs"] = {"critical_path_events_set": sorted(int(x) for x in cp.critical_path_events_set),
+                            "node_list": [[int(n.idx), int(n.ev_idx), bool(n.is_start)] for n in cp.node_list]}
+    return out
